@@ -620,7 +620,18 @@ impl Laws<'_> {
 }
 
 /// All laws over one pool. `as_f64` is given for the two types that *are* a double.
+/// The pool checks under panic capture: the standard library's sorts and ordered collections may panic when the
+/// order they are given is not total ("user-provided comparison function does not correctly implement a total order").
 fn check_pool<T>(rep: &mut Report, sub: &str, seed: u64, ty: &str, p: &[T], as_f64: Option<fn(&T) -> f64>)
+where
+    T: Val + Ord + Hash,
+{
+    if let Err(panic) = guarded(|| check_pool_inner(&mut *rep, sub, seed, ty, p, as_f64)) {
+        rep.violation(sub, seed, format!("{}:ordered-collection-panics", ty), json!({"type": ty, "panic": panic}));
+    }
+}
+
+fn check_pool_inner<T>(rep: &mut Report, sub: &str, seed: u64, ty: &str, p: &[T], as_f64: Option<fn(&T) -> f64>)
 where
     T: Val + Ord + Hash,
 {
@@ -1075,7 +1086,10 @@ pub fn run(ctx: &Ctx, report: &mut Report) {
         check_direct(rep, "table", 0, "f64", &vals);
     });
     ctx.cases(report, "pools", ctx.n(200, 20_000), |seed, rep| {
-        case(rep, "pools", seed);
+        // building the pools already puts values into ordered collections (sets of DoubleKey inside the mimic and generated types)
+        if let Err(panic) = guarded(|| case(&mut *rep, "pools", seed)) {
+            rep.violation("pools", seed, "ordered-collection-panics-while-building-values", json!({"panic": panic}));
+        }
     });
     if ctx.replay.is_none() {
         report.floor_cells("types", "type/", N_TYPES);
